@@ -84,3 +84,61 @@ VE = dict(params=dict(potentials='obj:list', elim='obj:list', total='real'), req
           local_types={'k': 'int'}, uses_locals=['psi', 'psi2', 'phi', 'tau', 'ans', 'k'], sites=VE_SITES,
           ensures={'ve:answer-is-the-normalised-exponential-of-the-remaining-sum': 'same(result, (ans + (np.log(total) - ans.logsumexp())).exp())'})
 ITEMS.append(('src/mbi/graphical_model.py', 'variable_elimination_logspace', VE, VE_SITES, 'C02'))
+
+
+def restart_termination_report():
+    """"completes without error" (C18): mirror_descent_auto restarts by calling ITSELF.  Termination of that recursion is decided on the
+    text: the recursive call passes a step size that is a constant fraction (< 1) of `alpha`, and it is guarded by a test that bounds
+    `alpha` from below by a positive numeric constant - so the depth is at most log(alpha0 / constant) / log(1 / fraction).
+    (Before fix 994e1cb there was no such guard and a warm-started repeated call recursed until RecursionError.)  Any other shape:
+    UNDECIDED, never a violation."""
+    import ast, time
+    from .. import deductive, frontend
+    from ..vc import solver as S
+    rel, q = 'src/mbi/local_inference.py', 'LocalInference.mirror_descent_auto'
+    r = deductive.FunctionReport(rel, q + ' [the restart recursion terminates]')
+    t0 = time.time()
+    try:
+        fn, _src, sha = frontend.get_function(rel, q)
+        parent = {}
+        for n in ast.walk(fn):
+            for c in ast.iter_child_nodes(n):
+                parent[id(c)] = n
+        calls = [n for n in ast.walk(fn) if isinstance(n, ast.Call) and ast.unparse(n.func) == 'self.mirror_descent_auto']
+        ok, why = bool(calls) or None, ''
+        if not calls:
+            ok, why = True, ''           # no recursion at all
+        for c in calls:
+            a0 = c.args[0] if c.args else next((k.value for k in c.keywords if k.arg == 'alpha'), None)
+            frac = None
+            if isinstance(a0, ast.BinOp) and isinstance(a0.op, ast.Div) and ast.unparse(a0.left) == 'alpha' and isinstance(a0.right, ast.Constant) \
+                    and isinstance(a0.right.value, (int, float)) and a0.right.value > 1:
+                frac = 1.0 / a0.right.value
+            if isinstance(a0, ast.BinOp) and isinstance(a0.op, ast.Mult):
+                for x, y in ((a0.left, a0.right), (a0.right, a0.left)):
+                    if ast.unparse(x) == 'alpha' and isinstance(y, ast.Constant) and isinstance(y.value, (int, float)) and 0 < y.value < 1:
+                        frac = float(y.value)
+            guarded, cur = False, c
+            while id(cur) in parent:
+                cur = parent[id(cur)]
+                if isinstance(cur, ast.If):
+                    tests = cur.test.values if isinstance(cur.test, ast.BoolOp) and isinstance(cur.test.op, ast.And) else [cur.test]
+                    for t_ in tests:
+                        if isinstance(t_, ast.Compare) and len(t_.ops) == 1 and ast.unparse(t_.left) == 'alpha' and isinstance(t_.ops[0], (ast.Gt, ast.GtE)) \
+                                and isinstance(t_.comparators[0], ast.Constant) and isinstance(t_.comparators[0].value, (int, float)) and t_.comparators[0].value > 0:
+                            guarded = True
+            if frac is None or not guarded:
+                ok = False
+                why = 'recursive call at line %d: %s' % (c.lineno, 'step is not a constant fraction of alpha' if frac is None else
+                                                         'no enclosing test bounds alpha from below by a positive constant')
+        ob = S.Obligation('%s::%s/restart-recursion-has-a-bounded-depth' % (rel, q), [], None, function='%s::%s' % (rel, q), kind='termination')
+        ob.verdict = 'discharged' if ok else 'unknown'
+        ob.backend, ob.seconds, ob.reason = 'syntactic (AST match): variant alpha, geometric decrease, positive lower bound', 0.0, why
+        ob.meta = {'base': ob.name}
+        r.obligations.append(ob)
+        r.sha = sha
+    except frontend.MissingAnchor as e:
+        r.undecided = 'anchor missing: %s' % e
+    r.vacuity = []
+    r.seconds = time.time() - t0
+    return r
